@@ -58,7 +58,7 @@ theorem rel_connect (h : Rel seen y m) (i : Slot) (sid : Nat) (modern : Bool) (m
     exact hok this
   have hjne : ∀ j, (y.slots j).used = true → j ≠ i := by
     intro j hj e; subst e; rw [hu] at hj; exact absurd hj (by simp)
-  refine ⟨reach_sessions_append h.srvOk hfresh modern, ⟨h.g.cap, h.g.ver, h.g.cnt, h.g.content⟩, ?_, ?_, ?_, ?_, ?_, ?_⟩
+  refine ⟨reach_sessions_append h.srvOk hfresh modern, ⟨h.g.cap, h.g.ver, h.g.cnt, h.g.content⟩, ?_, ?_, ?_, ?_, ?_, ?_, h.gate⟩
   · -- sessions
     constructor
     · intro j hj
@@ -226,7 +226,7 @@ theorem rel_close (h : Rel seen y m) (i : Slot) (hu : (y.slots i).used = true) :
   have hS := h.srvOk.invS
   have hne : ∀ j, j ≠ i → (y.slots j).used = true → (y.slots j).sid ≠ (y.slots i).sid := by
     intro j hji hj e; exact hji (h.sess.sid_inj j i hj hu e)
-  refine ⟨srvOk_close h.srvOk _, ⟨h.g.cap, h.g.ver, h.g.cnt, h.g.content⟩, ?_, ?_, ?_, ?_, ?_, ?_⟩
+  refine ⟨srvOk_close h.srvOk _, ⟨h.g.cap, h.g.ver, h.g.cnt, h.g.content⟩, ?_, ?_, ?_, ?_, ?_, ?_, h.gate⟩
   · constructor
     · intro j hj
       simp only [setSlot_slots] at hj ⊢
